@@ -190,6 +190,7 @@ def handle (e : Env) (op : String) (args : List String) : Option Verdict :=
   | "bn_mul_karat" => bin e args bnMulKarat (· * ·)
   | "bn_sqr" => un e args bnSqrComba (fun a => a * a)
   | "bn_sqr_comba" => un e args bnSqrComba (fun a => a * a)
+  | "bn_sqr_basic" => un e args bnSqrBasic (fun a => a * a)
   | "bn_sqr_karat" => un e args bnSqrKarat (fun a => a * a)
   | "bn_dbl" => un e args bnDbl (fun a => 2 * a)
   | "bn_hlv" => un e args bnHlv (fun a => Int.fdiv a 2)
